@@ -1,4 +1,5 @@
 import UtilModel.CCall.Props
+import UtilModel.CCall.Transfer
 open UtilModel UtilModel.CCall
 #print axioms UtilModel.accepts_sound
 #print axioms UtilModel.accepted_satisfies
@@ -19,3 +20,5 @@ open UtilModel UtilModel.CCall
 #print axioms CCall.no_panic
 #print axioms CCall.inline_passthrough
 #print axioms CCall.C17_obs
+#print axioms UtilModel.C17_accepted
+#print axioms UtilModel.acceptsH_sound
